@@ -142,7 +142,9 @@ def rand_script(rng, maxlen=4):
         elif k < 0.7:
             toks.append("d")
             stack.pop()
-        elif k < 0.85:
+        elif k < 0.76:
+            toks.append("r")                         # same-size realloc of the top buffer: a grow of 0 bytes
+        elif k < 0.87:
             n = stack[-1] + rng.choice([1, 8, 64, 1000])
             toks.append(f"g{n}")
             stack[-1] = n
@@ -222,7 +224,8 @@ def rand_kept_scripts(rng):
     for _ in range(rng.choice([1, 1, 2])):
         n = rng.choice([2, 16, 24, 100, 1000])
         g += [f"a{n}", "k"]
-        kind = rng.choice(["grow", "grow", "shrink", "shrink", "free", "grow-shrink", "grow-free", "shrink-grow"])
+        kind = rng.choice(["grow", "grow", "shrink", "shrink", "free", "grow-shrink", "grow-free", "shrink-grow",
+                           "same", "same", "same-free"])
         f.append("t")
         if kind == "grow":
             f.append(f"g{n + rng.choice([1, 8, 64, 1000])}")
@@ -230,6 +233,10 @@ def rand_kept_scripts(rng):
             f.append(f"s{rng.randrange(1, n)}")
         elif kind == "free":
             f.append("d")
+        elif kind == "same":
+            f.append("r")
+        elif kind == "same-free":
+            f += ["r", "d"]
         elif kind == "grow-shrink":
             m = n + rng.choice([8, 64])
             f += [f"g{m}", f"s{rng.randrange(1, m)}"]
